@@ -66,9 +66,12 @@ pub mod mspec {
     // from exactly these values on exactly these sub-slices; what the values ARE is the business
     // of the Kani harnesses on the leaves (c02_dec_*, c01_arg_*, inp_payload_*).
     pub uninterp spec fn std_of(input: Seq<u8>) -> StandardHeader;
+//#if skipper_only
+//#else
     pub uninterp spec fn ext_of(input: Seq<u8>) -> ExtendedHeader;
     pub uninterp spec fn sto_of(input: Seq<u8>) -> StorageHeader;
     pub uninterp spec fn payload_of<T>(input: Seq<u8>, verbose: bool, payload_length: u16, arg_cnt: u8, msg_type: Option<MessageType>) -> PayloadContent;
+//#endif
 
     /// Contract of the standard-header parser (ASSUMED in this unit; proved on the real code by
     /// the Kani harnesses c02_dec_std_header (all 2^128 inputs of the maximal header size) and
@@ -98,6 +101,8 @@ pub mod mspec {
         }
     }
 
+//#if skipper_only
+//#else
     /// Contract of the extended-header parser (ASSUMED; Kani c02_dec_ext_header over all 2^80
     /// inputs + c02_dec_ext_header_truncated): consumes exactly 10 bytes, never rejects.
     pub open spec fn ext_header_post(input: Seq<u8>, r: IResult<&[u8], ExtendedHeader, DltParseError>) -> bool {
@@ -129,6 +134,7 @@ pub mod mspec {
         }
     }
 
+//#endif
     /// where the standard header of the message that `dlt_message(input, _, with_storage)`
     /// looks at starts: after the junk in front of the first pattern and the 16-byte storage
     /// header, or at 0
@@ -147,6 +153,8 @@ pub mod mspec {
         &&& rest.len() < input.len()
     }
 
+//#if skipper_only
+//#else
     /// C01 / C09 glue: the returned message is assembled from exactly what the leaf parsers
     /// return on exactly the sub-slices the layout assigns to them: storage header from the input,
     /// standard header at `off`, extended header right behind it iff UEH, payload = the declared
@@ -187,6 +195,7 @@ pub mod mspec {
         }
     }
 
+//#endif
     /// payload length announced by the bytes: LEN - all headers
     pub open spec fn declared_payload(input: Seq<u8>, with_storage: bool) -> int {
         let off = msg_off(input, with_storage);
